@@ -91,7 +91,8 @@ theorem fifo_service (q : Quirks) : FifoService q :=
 def sourceQuirks : Quirks :=
   ⟨Gen.Blocking.notifyPerElement, Gen.Blocking.wakeAtPush, Gen.Blocking.unregisterAllOnServe,
    Gen.Blocking.refuseBlockingInTx, Gen.Blocking.dedupKeys, Gen.Blocking.drainAll,
-   Gen.Blocking.noticeBlockedHangup, Gen.Blocking.deferBatchWhenBlocked, Gen.Blocking.execAtomic⟩
+   Gen.Blocking.noticeBlockedHangup, Gen.Blocking.deferBatchWhenBlocked, Gen.Blocking.execAtomic,
+   Gen.Blocking.wakeChecksClient⟩
 
 /-- The model drains as many wake-ups per loop iteration as the source says. -/
 theorem wakeBatch_matches_source : Gen.Blocking.wakeBatch = wakeBatch := by decide
@@ -147,10 +148,14 @@ def kb : Key := [98]
   named twice waited on once) every full statement holds for ALL histories that satisfy the much weaker
   decidable predicate `AllowedFixed`: any number of keys per blocking pop (duplicates included), any number of
   pushed elements up to the drain bound, pops anywhere (pipelined behind a push, inside EXEC, …), blocking pops
-  inside MULTI/EXEC, time-outs, hang-ups of clients that are not blocked.  What `AllowedFixed` still excludes is
-  exactly what is still open in the code:
-  * a hang-up WHILE blocked — the hang-up goes unnoticed (`noticeBlockedHangup` off) and, even when noticed, an
-    element pushed before the server looks is lost under every design (`conservation_fails_disconnect_in_flight_even_fixed`);
+  inside MULTI/EXEC, time-outs, hang-ups.  What `AllowedFixed` still excludes is exactly what is still open in the code:
+  * without `noticeBlockedHangup` + `wakeChecksClient` (the server probes blocked sockets, unregisters a vanished
+    client at once and `wake_client` looks at the connection before it pops): any hang-up while blocked.  With them a
+    blocked client may hang up at any time; what stays excluded is only a BATCH processed between that hang-up and the
+    server's next look at the socket (`reap`).  With `wakeChecksClient` the model conserves there too (`wake_client`
+    peeks at the socket before it pops: example after `conservation_fails_disconnect_in_flight_without_check`), but the
+    invariant of the proof assumes that batches run in a calm state, so that window is NOT covered by the theorems
+    (`in_flight_window_is_excluded`); beyond the model, a peer that closes after the peek loses what is in its socket;
   * a blocking pop executed for a connection that is already blocked, i.e. pipelined behind a blocking pop that
     blocked (finding C13-pipelined-second-bpop; cannot occur once `deferBatchWhenBlocked` is on: the exclusion is
     then vacuous, the batch stops at the first blocking pop that blocks);
@@ -165,52 +170,53 @@ def kb : Key := [98]
 theorem sourceQuirks_repaired : Repaired sourceQuirks := by decide
 
 theorem invariant_fixed_partial (q : Quirks) (hq : Repaired q) (evs : List Event) (h : AllowedFixed q evs) :
-    InvB (run q evs) := InvB_run q hq evs h
+    InvR (run q evs) := InvR_run q hq evs h
 
 /-- Conservation: nothing pushed is ever lost — multi-key waits, multi-element pushes, any interleaving of pops. -/
 theorem conservation_fixed_partial (q : Quirks) (hq : Repaired q) (evs : List Event) (h : AllowedFixed q evs) :
     (run q evs).pushed.Perm (delivered (run q evs) ++ (run q evs).store) := by
   have hA := accounting q evs
-  rw [(InvB_run q hq evs h).inv.lost] at hA
+  rw [(InvR_run q hq evs h).inv.lost] at hA
   simpa using hA
 
 /-- Between events the wake queue is empty (every wake-up has been carried out)… -/
 theorem wake_queue_empty_fixed_partial (q : Quirks) (hq : Repaired q) (evs : List Event) (h : AllowedFixed q evs) :
-    (run q evs).wakeQ = [] := (InvB_run q hq evs h).quiet
+    (run q evs).wakeQ = [] := (InvR_run q hq evs h).quiet
 
 /-- …and no blocked client has an element waiting under any of its keys. -/
 theorem no_stranded_fixed_partial (q : Quirks) (hq : Repaired q) (evs : List Event) (h : AllowedFixed q evs)
     (c : Conn) (k : Key) (hb : blockedOn (run q evs) c k) : listOf (run q evs).store k = [] :=
-  (InvB_run q hq evs h).not_stranded hb
+  (InvR_run q hq evs h).not_stranded hb
 
 /-- A connection is in the registry queue of `k` iff it is blocked on `k` — for each of its keys. -/
 theorem registry_iff_blocked_fixed_partial (q : Quirks) (hq : Repaired q) (evs : List Event) (h : AllowedFixed q evs)
     (c : Conn) (k : Key) : inRegistry (run q evs) k c ↔ blockedOn (run q evs) c k :=
-  (InvB_run q hq evs h).registry_iff c k
+  (InvR_run q hq evs h).registry_iff c k
 
 /-- Served or timed out, a client is named by no queue. -/
 theorem no_leftover_registration_fixed_partial (q : Quirks) (hq : Repaired q) (evs : List Event) (h : AllowedFixed q evs)
     (c : Conn) (hb : ((run q evs).conns c).blocked = none) : c ∉ line (run q evs) :=
-  (InvB_run q hq evs h).no_leftover hb
+  (InvR_run q hq evs h).no_leftover hb
 
 /-- The deadline scan releases a client only at or after the deadline of the call it is blocked in. -/
 theorem never_early_nil_fixed_partial (q : Quirks) (hq : Repaired q) (evs : List Event) (h : AllowedFixed q evs)
     (now : Nat) (c : Conn) (b : Blocked) (hb : ((run q evs).conns c).blocked = some b)
     (hn : ((step q (run q evs) (.timeouts now)).conns c).blocked = none) : ∃ d, b.deadline = some d ∧ d ≤ now :=
-  (InvB_run q hq evs h).never_early_nil now c b hb hn
+  (InvR_run q hq evs h).never_early_nil now c b hb hn
 
 /-- And it does release it: after the scan at `now` no client whose deadline has passed is still blocked. -/
 theorem timeout_fires_fixed_partial (q : Quirks) (hq : Repaired q) (evs : List Event) (h : AllowedFixed q evs)
     (now : Nat) (c : Conn) (b : Blocked) (d : Nat) (hb : ((run q evs).conns c).blocked = some b)
     (hd : b.deadline = some d) (hle : d ≤ now) :
     ((step q (run q evs) (.timeouts now)).conns c).blocked = none :=
-  (InvB_run q hq evs h).timeout_fires now c b d hb hd hle
+  (InvR_run q hq evs h).timeout_fires now c b d hb hd hle
 
 /-! ### What `AllowedFixed` still excludes does break the tree as it is (five repairs on, nothing else) -/
 
 /-- The switches of the tree at the time of writing: the five repairs, none of the four proposed since. -/
 def repaired5 : Quirks :=
-  { Quirks.fixed with drainAll := false, noticeBlockedHangup := false, deferBatchWhenBlocked := false, execAtomic := false }
+  { Quirks.fixed with drainAll := false, noticeBlockedHangup := false, deferBatchWhenBlocked := false, execAtomic := false,
+                      wakeChecksClient := false }
 
 example : Repaired repaired5 := by decide
 
@@ -364,14 +370,18 @@ theorem conservation_fails_disconnect_while_blocked : (run Quirks.code wDisconne
 /-- once blocked connections are probed for end-of-file (`noticeBlockedHangup`) the hang-up is noticed… -/
 example : (run { Quirks.code with noticeBlockedHangup := true } wDisconnectBlocked).lost = [] := by decide
 
-/-- …but an element pushed between the hang-up and the moment the server looks is lost under every quirk setting:
-    this window cannot be closed by the server (the peer is already gone), which is why `AllowedFixed` keeps
-    excluding a hang-up while blocked. -/
+/-- …but, without the look-before-pop of `wakeChecksClient`, an element pushed between the hang-up and the moment the
+    server looks is written into the dead socket: -/
 def wDisconnectInFlight : List Event :=
   [ .conn 3 0 [.bpop .left [ka] 0], .hangup 3, .conn 2 0 [.push .right ka [[1]]], .wakeups ]
 
-theorem conservation_fails_disconnect_in_flight_even_fixed :
-    (run Quirks.fixed wDisconnectInFlight).lost = [(ka, [1])] := by decide
+theorem conservation_fails_disconnect_in_flight_without_check :
+    (run { Quirks.fixed with wakeChecksClient := false } wDisconnectInFlight).lost = [(ka, [1])] := by decide
+
+/-- with it, `wake_client` peeks at the socket first, finds the peer gone, drops the client and leaves the element.
+    (What remains outside the model is a peer that closes AFTER that peek: the bytes are already in the socket.) -/
+example : (run Quirks.fixed wDisconnectInFlight).lost = [] ∧ (run Quirks.fixed wDisconnectInFlight).store = [(ka, [1])] ∧
+    (run Quirks.fixed wDisconnectInFlight).registry = [] := by decide
 
 /-- a second blocking pop pipelined behind one that blocked is executed at once: two registrations, one
     blocked state; the first service leaves the other registration behind, which swallows the next element. -/
@@ -436,6 +446,27 @@ theorem never_early_nil_fails : ¬ NeverEarlyNil Quirks.code := fun h => by
 theorem never_early_nil_fails_reply :
     outOf (runFrom Quirks.code (run Quirks.code wLeftoverDeadline) [.timeouts 260]) 3 = [.pair ka [1], .nilArr] := by decide
 
+/-! ### Hang-up while blocked, once the server looks before it pops -/
+
+/-- a blocked client hangs up, the server's probe notices (`reap`), THEN the push arrives: allowed, and the element
+    stays in the list (the `hang-up during a stall` scenario: the probe runs first in the iteration that follows) -/
+def wHangupNoticed : List Event :=
+  [ .conn 3 0 [.bpop .left [ka, kb] 0], .conn 4 5 [.bpop .right [ka] 0], .hangup 3, .reap 3,
+    .conn 2 10 [.push .right ka [[1], [2]]], .conn 2 20 [.push .left kb [[3]]] ]
+
+example : AllowedFixed Quirks.fixed wHangupNoticed := by decide
+example : (run Quirks.fixed wHangupNoticed).lost = [] ∧ outOf (run Quirks.fixed wHangupNoticed) 4 = [.pair ka [2]] ∧
+    (run Quirks.fixed wHangupNoticed).store = [(kb, [3]), (ka, [1])] ∧ (run Quirks.fixed wHangupNoticed).registry = [] := by decide
+
+/-- the window that stays excluded from the THEOREMS (not from conservation, see above): the batch runs between the
+    hang-up and the server's look at the socket -/
+theorem in_flight_window_is_excluded : ¬ AllowedFixed Quirks.fixed wDisconnectInFlight := by decide
+
+/-- `wake_client` looking first: a request for a client that is no longer blocked (here: the dummy connection 0 of a
+    tree without the EXEC repair) leaves the element in the list instead of dropping it -/
+example : (run { Quirks.code with wakeChecksClient := true } wExecConn0).lost = [] ∧
+    (run { Quirks.code with wakeChecksClient := true } wExecConn0).store = [(ka, [1])] := by decide
+
 /-! ### The same witnesses with the local repairs switched on -/
 
 example : (run Quirks.fixed wMultiKeyLeftover).lost = [] ∧ (run Quirks.fixed wMultiKeyLeftover).store = [(kb, [2])] := by decide
@@ -455,7 +486,9 @@ example : outOf (run { Quirks.code with wakeAtPush := true } wPipelinedPushPop) 
 def wDuplicateKey : List Event :=
   [ .conn 3 0 [.bpop .right [ka, ka] 0], .conn 2 0 [.push .left ka [[1], [2]]], .wakeups ]
 
-example : (run { Quirks.fixed with dedupKeys := false } wDuplicateKey).lost = [(ka, [2])] := by decide
+example : (run { Quirks.fixed with dedupKeys := false, wakeChecksClient := false } wDuplicateKey).lost = [(ka, [2])] := by decide
+/-- …or `wake_client` looks first: the second request finds the client served and leaves the element -/
+example : (run { Quirks.fixed with dedupKeys := false } wDuplicateKey).lost = [] := by decide
 example : (run Quirks.fixed wDuplicateKey).lost = [] ∧ (run Quirks.fixed wDuplicateKey).store = [(ka, [2])] := by decide
 
 end Ferrous.C13
